@@ -37,6 +37,10 @@ pub struct ShutdownScenario {
     pub release_after_ms: Vec<u8>,
     pub waiters: u8,
     pub server_workers: u8,
+    /// request shutdown by dropping the server instead of calling close(); "finished" is then
+    /// what a wait_for_shutdown() future taken beforehand observes
+    #[serde(default)]
+    pub via_drop: bool,
 }
 
 fn conn_state() -> impl Strategy<Value = ConnState> {
@@ -50,7 +54,7 @@ fn conn_state() -> impl Strategy<Value = ConnState> {
 }
 
 fn shutdown_scenario(max: usize) -> impl Strategy<Value = ShutdownScenario> {
-    (prop::bool::weighted(0.3), any::<bool>(), proptest::collection::vec(conn_state(), 1..=max), proptest::collection::vec(0u8..120, 8), 1u8..4, 1u8..5).prop_map(|(tls, detached, mut conns, release_after_ms, waiters, server_workers)| {
+    (prop::bool::weighted(0.3), any::<bool>(), proptest::collection::vec(conn_state(), 1..=max), proptest::collection::vec(0u8..120, 8), 1u8..4, 1u8..5, prop::bool::weighted(0.25)).prop_map(|(tls, detached, mut conns, release_after_ms, waiters, server_workers, via_drop)| {
         if tls {
             for c in conns.iter_mut() {
                 match c {
@@ -59,7 +63,7 @@ fn shutdown_scenario(max: usize) -> impl Strategy<Value = ShutdownScenario> {
                 }
             }
         }
-        ShutdownScenario { tls, detached, conns, release_after_ms, waiters, server_workers }
+        ShutdownScenario { tls, detached, conns, release_after_ms, waiters, server_workers, via_drop }
     })
 }
 
@@ -91,7 +95,7 @@ fn check_shutdown(rt: &tokio::runtime::Runtime, s: &ShutdownScenario, st: &mut S
     let addr = server.local_addr();
     let tls = s.tls;
     let log = server.app_private().log.clone();
-    let desc = format!("{}mode {} conns {:?} release_after_ms {:?} waiters {}", if s.tls { "https " } else { "" }, if s.detached { "detached" } else { "cancel-on-disconnect" }, s.conns, s.release_after_ms, s.waiters);
+    let desc = format!("{}{}mode {} conns {:?} release_after_ms {:?} waiters {}", if s.via_drop { "[shutdown by dropping the server] " } else { "" }, if s.tls { "https " } else { "" }, if s.detached { "detached" } else { "cancel-on-disconnect" }, s.conns, s.release_after_ms, s.waiters);
     let res: Result<(), Failure> = rt.block_on(async {
         // waiters taken before anything happens
         let mut waiter_tasks = vec![];
@@ -211,8 +215,15 @@ fn check_shutdown(rt: &tokio::runtime::Runtime, s: &ShutdownScenario, st: &mut S
         log.push(Ev::CloseCalled);
         let _ = close_tx.send(true);
         let l2 = log.clone();
+        let via_drop = s.via_drop;
         let close_task = tokio::spawn(async move {
-            let r = server.close().await;
+            let r = if via_drop {
+                let w = server.wait_for_shutdown();
+                drop(server);
+                w.await
+            } else {
+                server.close().await
+            };
             l2.push(Ev::CloseReturned);
             r
         });
@@ -248,6 +259,9 @@ fn check_shutdown(rt: &tokio::runtime::Runtime, s: &ShutdownScenario, st: &mut S
         st.count("scenarios");
         if s.tls {
             st.count("https_scenarios");
+        }
+        if s.via_drop {
+            st.count("shutdown_by_drop");
         }
         // 4. same result everywhere
         for w in &waiter_results {
@@ -347,7 +361,7 @@ fn check_shutdown(rt: &tokio::runtime::Runtime, s: &ShutdownScenario, st: &mut S
 }
 
 pub fn run(ctx: &mut Ctx) {
-    ctx.rule = "scenarios = task mode x 1-8 connections in generated states at the moment close() is called (handler entered and waiting with the client staying, over HTTP/1.1 or HTTP/2, plain or upload, optionally having dropped its RequestContext; handler entered and client already gone, FIN or RST; a 4 MiB response half read; idle keep-alive; half-sent request that is later finished or abandoned) x 1-3 wait_for_shutdown() futures taken beforehand x handler release delays of 0-120 ms after close() was called x 1-4 server workers. Oracle over the event log: stayers read complete correct responses; Completed(id) of every in-flight handler and every detached handler precedes CloseReturned and the release of every wait_for_shutdown() future; connect() is refused afterwards; close() and all waiters agree. non-trivial = >= 2 in-flight handlers at close, or a detached handler outliving its client; distinct by scenario".into();
+    ctx.rule = "scenarios = task mode x 1-8 connections in generated states at the moment close() is called (a quarter of the scenarios drop the server instead and observe the end of shutdown through a wait_for_shutdown() future) (handler entered and waiting with the client staying, over HTTP/1.1 or HTTP/2, plain or upload, optionally having dropped its RequestContext; handler entered and client already gone, FIN or RST; a 4 MiB response half read; idle keep-alive; half-sent request that is later finished or abandoned) x 1-3 wait_for_shutdown() futures taken beforehand x handler release delays of 0-120 ms after close() was called x 1-4 server workers. Oracle over the event log: stayers read complete correct responses; Completed(id) of every in-flight handler and every detached handler precedes CloseReturned and the release of every wait_for_shutdown() future; connect() is refused afterwards; close() and all waiters agree. non-trivial = >= 2 in-flight handlers at close, or a detached handler outliving its client; distinct by scenario".into();
     ctx.assume("liveness is only observed within a 30 s bound; a timeout there is reported as a violation of 'close-hangs' only because every handler is released by the harness within 120 ms");
     ctx.max_shrink_iters = 60;
     let rt = tokio::runtime::Builder::new_multi_thread().worker_threads(4).enable_all().build().unwrap();
